@@ -31,6 +31,7 @@ import Absnfs.ServerCoherent
 import Absnfs.ServerInvProcs
 import Absnfs.ServerFailed
 import Absnfs.FsReach
+import Absnfs.ServerLookup
 import Props.C21
 import Gen.Facts
 open Absnfs Absnfs.Server
@@ -110,13 +111,15 @@ theorem new_object_invalidations (s : St) (dir path : Bytes) :
 /-! ### the invariant, for every request and every history -/
 
 /-- a new server — empty attribute cache, empty handle table, over any well-formed backend tree — satisfies the invariant -/
-theorem new_server_cinv (s : St) (hac : s.ac.entries = []) (hcap : 0 < s.ac.cap) (hhs : s.hs.live = []) (hwf : Fs.WF s.fs) :
-    CInv s where
+theorem new_server_cinv (s : St) (hac : s.ac.entries = []) (hcap : 0 < s.ac.cap) (raw : Int) (hhs : s.hs = Handles.init raw)
+    (hdm : 0 < s.cfg.defaultMaxHandles) (hwf : Fs.WF s.fs) : CInv s where
   coh := initial_coherent s hac
   lru := ⟨by simp [Lru.keys, hac], by simp [hac], hcap⟩
   keys := by intro e he; rw [hac] at he; simp at he
-  hcl := by intro x hx; rw [hhs] at hx; simp at hx
+  hcl := by intro x hx; rw [hhs] at hx; simp [Handles.init] at hx
   wf := hwf
+  htab := by rw [hhs]; exact Handles.inv_init _ raw
+  hdm := hdm
 
 /-- the empty backend is well-formed, and the operations that populate it keep it so -/
 theorem empty_backend_wf (m : Nat) : Fs.WF (Fs.empty m) := Fs.wf_empty m
@@ -149,6 +152,17 @@ theorem lookup_after_any_history (s0 : St) (rs : List Req) (h0 : CInv s0) (now :
     (∀ st, lookupPath (runReqs s0 rs) now p = (s', .error st) →
         p = [] ∨ ∃ err, Fs.lstat (runReqs s0 rs).fs (fsPath p) = .error err) :=
   lookup_transparent (history_keeps_cinv s0 rs h0).coh
+
+/-- C02 at handler level, both directions: after any history, a LOOKUP of a valid name through a live directory
+    handle is answered NFS3_OK exactly when the backend's Lstat finds the path — no cache content (stale positive
+    entry, stale negative entry, expired or not) can make it answer otherwise. -/
+theorem lookup_ok_iff_backend_has_it (s0 : St) (rs : List Req) (h0 : CInv s0) (c : Ctx) (args : Bytes) (hd : Nat)
+    (r1 name r2 : Bytes) (n : Node) (hfh : decFh' (runReqs s0 rs) args = some (hd, r1))
+    (hname : decStr (runReqs s0 rs) r1 = some (name, r2)) (hv : validateFilename name = 0)
+    (hn : nodeOf (runReqs s0 rs) hd = some n) (hdir : n.attrs.kind = .dir) :
+    (∃ s' fh fa da, procLookup (runReqs s0 rs) c args = (s', .res ⟨0, .lookupOk fh (some fa) da⟩)) ↔
+    (∃ i, Fs.lstat (runReqs s0 rs).fs (fsPath (joinName n.path name)) = .ok i) :=
+  procLookup_iff_backend s0 rs h0 c args hd r1 name r2 n hfh hname hv hn hdir
 
 /-- the modifying procedures one by one (the statement the property names: MKDIR, RENAME, RMDIR staleness) -/
 theorem mkdir_keeps_cinv (s : St) (c : Ctx) (a : Bytes) (h : CInv s) : CInv (procMkdir s c a).1 := procMkdir_cinv s c a h
@@ -184,6 +198,6 @@ def demoState : St :=
     dc := none, excl := [],
     cfg := { transfer := 65536, readOnly := false, maxFileSize := 0, squash := .none, maxStr := 8192, fhMax := 64,
              defaultMaxHandles := 100000, evictDivisor := 10, dcMaxDirSize := 10000, maxRecord := 1048576, writeVerf := [] } }
-example : CInv demoState := new_server_cinv demoState rfl (by decide) rfl (Fs.wf_empty 1000)
+example : CInv demoState := new_server_cinv demoState rfl (by decide) 0 rfl (by decide) (Fs.wf_empty 1000)
 
 end Props.C02
